@@ -219,6 +219,9 @@ func validateAgainstNative(p *Program, u *Unit, results []*HarnessResult, tier s
 		hs := findHarness(u, r.Func)
 		matched := 0
 		for i, tr := range traces[r.Func] {
+			if hs.DiffTraces > 0 && i >= hs.DiffTraces {
+				break
+			}
 			if tr.Panic != "" {
 				continue // a native panic (e.g. index out of range in the code under test) is compared as such below
 			}
